@@ -523,3 +523,29 @@ Example C14_transmitter_loop_nonvacuous :
   tnext true true 2 (init_tx true) (mkT (FTx false) 15 true 0 false false) true false 0 0
     = Some (None, mkT FMain 17 true 0 false false).
 Proof. vm_compute. repeat split; reflexivity. Qed.
+
+(** WHOLE EXECUTIONS.  [own t ev] = ev is a step of thread t itself; any other event of the alphabet is the environment's
+    (other runner threads, application Lock/Unlock/SetFlag/WakeSend/Offer/Mutate, the ticker's Tick, Cancel).  An
+    environment transition leaves thread t's record unchanged in every field [sim] looks at (pc, armed, cyclic, gotwake,
+    last-read flag) ... *)
+Theorem C14_environment_keeps_sim : forall t ev s s' x,
+  own t ev = false -> step_fn s ev = Some s' -> th s t = TTx x ->
+  exists x', th s' t = TTx x' /\
+    (t_pc x' = t_pc x /\ t_armed x' = t_armed x /\ t_cyclic x' = t_cyclic x /\ t_gotwake x' = t_gotwake x /\ t_last x' = t_last x).
+Proof. exact env_keeps_sim. Qed.
+Print Assumptions C14_environment_keeps_sim.
+
+(** ... hence, by induction over the trace: ANY interleaving [texec] of silent program steps, visible program steps (taken
+    when the environment enables them) and environment transitions, started in a configuration related to the LTS state by
+    [sim], is a run of the LTS ([run s tr = Some s2]) and ends related by [sim] again; from a reachable state it ends in a
+    reachable state - so every invariant of Protocol.v / LockDiscipline.v holds along executions of the linked programs *)
+Theorem C14_transmitter_program_execution_refines_lts : forall dc dt t c s tr c2 s2,
+  texec dc dt t c s tr c2 s2 -> forall x, th s t = TTx x -> sim dc dt c x ->
+  run s tr = Some s2 /\ exists x2, th s2 t = TTx x2 /\ sim dc dt c2 x2.
+Proof. exact transmitter_execution_refines. Qed.
+Print Assumptions C14_transmitter_program_execution_refines_lts.
+
+Theorem C14_transmitter_program_execution_reachable : forall cfg dc dt t c s tr c2 s2 x,
+  reachable cfg s -> texec dc dt t c s tr c2 s2 -> th s t = TTx x -> sim dc dt c x -> reachable cfg s2.
+Proof. exact transmitter_execution_reachable. Qed.
+Print Assumptions C14_transmitter_program_execution_reachable.
